@@ -4,7 +4,7 @@
 set -e
 PROP=$1; F=$2; OLD=$3; NEW=$4
 S=$(mktemp -d /tmp/mut.XXXXXX)
-cp -r /repo/src $S/src
+rsync -a --exclude target --exclude .git /repo/ $S/
 python3 - "$S/$F" "$OLD" "$NEW" <<'PY'
 import sys
 p,old,new=sys.argv[1:4]
